@@ -31,6 +31,13 @@ import (
 )
 
 func baseScenario(r *rand.Rand, idx string, parallelBias bool) *fullsync.Scenario {
+	return baseScenarioX(r, idx, parallelBias, false)
+}
+
+// baseScenarioX: rich = the target-error class wants entries that are replayed outside the plain
+// per-key path: function libraries (FUNCTION RESTORE) and collections of more than 100 elements
+// expanded into native commands (full pipeline batches of 100).
+func baseScenarioX(r *rand.Rand, idx string, parallelBias, rich bool) *fullsync.Scenario {
 	sc := &fullsync.Scenario{Key: idx, TargetDb: -1, KeyExists: "replace", TargetVersion: "7.2.4", MaxBulk: 512 * 1024 * 1024}
 	ver := 6 + r.Intn(7)
 	sc.Restore = r.Intn(2) == 0
@@ -42,7 +49,28 @@ func baseScenario(r *rand.Rand, idx string, parallelBias bool) *fullsync.Scenari
 		opt.NumKeys = 6 + r.Intn(10)
 	}
 	sc.DS = rdbx.GenDataset(r, opt)
+	if rich && r.Intn(2) == 0 {
+		// a 150-300 element collection that must be expanded (restore off)
+		sc.Restore = false
+		n := 150 + r.Intn(150)
+		big := rdbx.Key{DB: 0, Key: []byte("k" + idx + ":big"), Enc: rdbx.Encoding{Type: rdbx.TypeList}}
+		big.Value.Kind = rdbx.KindList
+		for j := 0; j < n; j++ {
+			big.Value.List = append(big.Value.List, []byte(fmt.Sprintf("e%d", j)))
+		}
+		if r.Intn(2) == 0 {
+			big.Enc.Type = rdbx.TypeHash
+			big.Value = rdbx.Value{Kind: rdbx.KindHash}
+			for j := 0; j < n; j++ {
+				big.Value.Hash = append(big.Value.Hash, [2][]byte{[]byte(fmt.Sprintf("f%d", j)), []byte("v")})
+			}
+		}
+		sc.DS = append([]rdbx.Key{big}, sc.DS...)
+	}
 	sc.FO = rdbx.GenFileOptions(r, ver, false)
+	if rich && ver >= 10 && r.Intn(2) == 0 && len(sc.FO.Functions) == 0 {
+		sc.FO.Functions = [][]byte{[]byte("#!lua name=lib" + idx + "\nredis.register_function('f" + idx + "', function(keys, args) return args[1] end)")}
+	}
 	sc.FO.SlotInfo = false
 	sc.FO.NoChecksum = false
 	sc.File, sc.Ser = rdbx.EncodeFile(sc.DS, sc.FO)
@@ -121,7 +149,7 @@ func main() {
 		parts := strings.SplitN(key, "-", 2)
 		cls, idx := parts[0], parts[1]
 		r := run.Rand("snap-" + idx)
-		sc := baseScenario(r, idx, cls == "cancel")
+		sc := baseScenarioX(r, idx, cls == "cancel", cls == "tgterr")
 		file := sc.File
 		describe := func() map[string]any {
 			var ks []string
@@ -437,5 +465,8 @@ func regionOf(sc *fullsync.Scenario, p int) string {
 
 // isTargetWrite: the requests at which a target error is injected (replay traffic on business keys).
 func isTargetWrite(rq *fakeredis.Req) bool {
+	if rq.Cmd == "FUNCTION" || rq.Cmd == "SCRIPT" {
+		return true
+	}
 	return len(rq.Args) > 0 && !drive.Reserved(rq.Args[0]) && (fakeredis.IsWrite(rq.Cmd) || rq.Cmd == "EXISTS")
 }
